@@ -39,6 +39,7 @@ static const KnownDefect KNOWN_DEFECTS[] = {
 };
 static const char* FMT_WITNESS = "ISO-8859-15/1.0/CharEscapes/UnRep_CharRef U+10000 0";
 static bool g_known = false;
+static bool g_witness = true;   // --witness 0: count known defects only (their witnesses are reported by another run of the same tier)
 static const KnownDefect* kd_find(const std::string& id) { for (auto& k : KNOWN_DEFECTS) if (id == k.id) return &k; return nullptr; }
 static bool kd_kind(const KnownDefect* k, const std::string& kind) {
     std::string ks = std::string(" ") + k->kinds + " ";
@@ -541,7 +542,7 @@ static void check_tree(DOMDocument* doc, const TreeOpts& to, Ctx& c) {
                                     (id == "cdata-illegal-char-emitted-when-splitting" && ex.why == "cdata-illegal-char");
                         if (!mine) continue;
                     }
-                    if (to.label == k->witnessTree && cfg.str() == k->witnessCfg) c.violation("defect:" + id, det + ",\"oracle\":" + jstr(kind));
+                    if (g_witness && to.label == k->witnessTree && cfg.str() == k->witnessCfg) c.violation("defect:" + id, det + ",\"oracle\":" + jstr(kind));
                     else c.count("known_defect:" + id);
                     return;
                 }
@@ -1016,6 +1017,7 @@ int main(int argc, char** argv) {
     g_k = (int)a.num("k", 3);
     g_steps = (int)a.num("steps", 3);
     g_known = a.num("known", 0) != 0;
+    g_witness = a.num("witness", 1) != 0;
     init_cfgs(a.str("configs", "full"));
     init_sym();
     xml_init();
